@@ -29,7 +29,7 @@ ML = "pynguin.utils.pynguinml.ndarray_cst"
 
 NAN = float("nan")
 FLOATS = [0.0, -0.0, 1.5, -1.5, 5.0, -5.0, 5e-324, -5e-324, 1e-7, 1.7976931348623157e308, 1e16, 1e22, float(2**63), 0.1 + 0.2, math.inf, -math.inf, NAN]
-PRIMS = [True, False, 0, 1, -1, 7, -7, 10**30, -(10**30), "", "it's \"q\"\n\\", "\x00é", b"", b"\x00\xff'\"", complex(1, 2), complex(-0.0, 2.0), complex(math.inf, -0.0), complex(NAN, -1.5), complex(-1.5, -math.inf)]
+PRIMS = [True, False, 0, 1, -1, 7, -7, 10**30, -(10**30), 10**5000, -(10**5000), "", "it's \"q\"\n\\", "\x00é", b"", b"\x00\xff'\"", complex(1, 2), complex(-0.0, 2.0), complex(math.inf, -0.0), complex(NAN, -1.5), complex(-1.5, -math.inf)]
 COLLS = [[], [1, -2.5, "a"], (), (1,), (True, 0), set(), {1, 2}, {"k": [1, (-0.0,)], 2: b"x"}, [[-0.0], (math.inf,)], [1, 1.0, True]]
 
 
